@@ -455,6 +455,16 @@ impl World {
             .collect();
         let file = loc.rsplit('/').next().unwrap_or(loc);
         let file = file.split(':').next().unwrap_or(file);
+        // the source text at the panic site makes the signature independent of line numbers
+        let site = {
+            let mut it = loc.rsplitn(2, ':');
+            let line: usize = it.next().and_then(|x| x.parse().ok()).unwrap_or(0);
+            let path = it.next().unwrap_or("");
+            std::fs::read_to_string(path)
+                .ok()
+                .and_then(|t| t.lines().nth(line.saturating_sub(1)).map(|l| l.trim().to_string()))
+                .unwrap_or_default()
+        };
         let singleton = self
             .live(i)
             .map(|l| l.rn.raft.prs().conf().voters().is_singleton())
@@ -462,10 +472,11 @@ impl World {
         ctx.v(
             "C20",
             format!(
-                "panic in {} at {}: {}{}",
+                "panic in {} at {} `{}`: {}{}",
                 what,
                 file,
-                short,
+                site,
+                short.lines().next().unwrap_or(""),
                 if singleton { " [singleton-voter]" } else { "" }
             ),
             format!("node {} panicked in {}: {} @ {}", i + 1, what, msg, loc),
@@ -1583,8 +1594,9 @@ pub fn write_rn(w: &mut W, rn: &Rn) {
     w.u8(v.prev_ss.1 as u8);
     w.hs(&v.prev_hs);
     w.us(v.records.len());
-    for (n, le, sn) in &v.records {
+    for (n, le, sn, pc) in &v.records {
         w.u64(v.max_number - n);
+        w.b(*pc);
         match le {
             None => w.u8(0),
             Some((a, b)) => {
